@@ -190,6 +190,23 @@ def chainStep (a b : Machine) (s : a.σ × b.σ) (c : Call) : (a.σ × b.σ) × 
 
 def chain (a b : Machine) : Machine := ⟨a.σ × b.σ, (a.init, b.init), chainStep a b⟩
 
+/-- a call to one of several filter OBJECTS built by the same factory expression around the same
+callback (one logger subscribed to two events): `inst` says which object is called -/
+structure ICall where
+  inst : Nat
+  call : Call
+  deriving Repr
+
+/-- every filter object has its own state: a call moves only the object it is made on -/
+def multiRun (m : Machine) : (Nat → m.σ) → List ICall → List Out
+  | _, [] => []
+  | s, ic :: r =>
+    (m.step (s ic.inst) ic.call).2 ::
+      multiRun m (fun j => if j = ic.inst then (m.step (s ic.inst) ic.call).1 else s j) r
+
+/-- outcomes of fresh filter objects, one per call -/
+def multiOuts (m : Machine) (ics : List ICall) : List Out := multiRun m (fun _ => m.init) ics
+
 /-- filter descriptions of the line protocol -/
 inductive Filter where
   | onChange
